@@ -52,6 +52,30 @@ enum Role {
     Ebgp,
     Ibgp,
     Confed,
+    /// e2e only: route-server client — an EXTERNAL neighbour (remote AS != local AS, `route_server_client`)
+    RsClient,
+    /// e2e only: route-reflector client — an internal neighbour (`route_reflector_client`)
+    RrClient,
+}
+
+impl Role {
+    /// same AS as the local speaker
+    fn internal(self) -> bool {
+        matches!(self, Role::Ibgp | Role::RrClient)
+    }
+    /// external and not a confederation member: what the statement calls "an external peer"
+    fn external(self) -> bool {
+        matches!(self, Role::Ebgp | Role::RsClient)
+    }
+    fn label(self) -> &'static str {
+        match self {
+            Role::Ebgp => "ebgp",
+            Role::Ibgp => "ibgp",
+            Role::Confed => "confed-ebgp",
+            Role::RsClient => "rs-client",
+            Role::RrClient => "rr-client",
+        }
+    }
 }
 
 #[derive(Clone, Copy, Debug)]
@@ -63,8 +87,9 @@ struct Cfg {
 
 impl Cfg {
     fn is_ebgp(&self) -> bool {
-        // what daemon/src/event/mod.rs passes: true only for a non-confederation external peer
-        self.role == Role::Ebgp
+        // the reference notion (statement: "an external peer"): a non-confederation external
+        // neighbour, plain eBGP or route-server client.  NOT a copy of what run_select computes.
+        self.role.external()
     }
     fn name(&self) -> String {
         format!(
@@ -413,7 +438,7 @@ fn push_asn(out: &mut Vec<u8>, asn: u32, two_byte: bool) {
 fn gen_as_path(cfg: &Cfg, rng: &mut Rng, want_as4: bool) -> (Vec<u8>, Option<Vec<u8>>) {
     let mut segs: Vec<(u8, Vec<u32>)> = Vec::new();
     match cfg.role {
-        Role::Ibgp if rng.bool() => {}
+        Role::Ibgp | Role::RrClient if rng.bool() => {}
         Role::Confed => {
             segs.push((
                 3,
@@ -522,10 +547,12 @@ fn gen_attrs(cfg: &Cfg, rng: &mut Rng, announce_legacy: bool, announce_any: bool
     }
     let ibgp_only = match cfg.role {
         Role::Ebgp => 25,
+        // the e2e-only roles lean on the iBGP-only attributes
+        Role::RsClient | Role::RrClient => 50,
         _ => 40,
     };
-    if (cfg.role != Role::Ebgp && rng.chance(9, 10))
-        || (cfg.role == Role::Ebgp && rng.chance(ibgp_only, 100))
+    if (!cfg.role.external() && rng.chance(9, 10))
+        || (cfg.role.external() && rng.chance(ibgp_only, 100))
     {
         v.push(TAttr {
             code: LOCAL_PREF,
@@ -645,7 +672,17 @@ fn gen_attrs(cfg: &Cfg, rng: &mut Rng, announce_legacy: bool, announce_any: bool
 
 fn gen_template(rng: &mut Rng) -> Tmpl {
     let cfg = Cfg {
-        role: *rng.pick(&[Role::Ebgp, Role::Ebgp, Role::Ibgp, Role::Ibgp, Role::Confed]),
+        role: *rng.pick(&[
+            Role::Ebgp,
+            Role::Ebgp,
+            Role::Ibgp,
+            Role::Ibgp,
+            Role::Confed,
+            Role::Confed,
+            Role::RsClient,
+            Role::RsClient,
+            Role::RrClient,
+        ]),
         two_byte: rng.chance(2, 5),
         addpath: rng.chance(1, 4),
     };
@@ -1867,6 +1904,7 @@ fn signature(clause: &str, code: Option<u8>, faults: &[Fault]) -> String {
 
 const LOCAL_AS: u32 = 65001;
 const EBGP_PEER_AS: u32 = 65002;
+const RS_CLIENT_AS: u32 = 65003;
 const CONFED_ID: u32 = 65010;
 const CONFED_LOCAL_MEMBER: u32 = 64700;
 const CONFED_PEER_MEMBER: u32 = 64701;
@@ -1885,7 +1923,8 @@ const HOLD_S: u64 = 3600;
 fn peer_as(cfg: &Cfg) -> u32 {
     match cfg.role {
         Role::Ebgp => EBGP_PEER_AS,
-        Role::Ibgp => LOCAL_AS,
+        Role::RsClient => RS_CLIENT_AS,
+        Role::Ibgp | Role::RrClient => LOCAL_AS,
         Role::Confed => CONFED_PEER_MEMBER,
     }
 }
@@ -1902,6 +1941,8 @@ fn want_role(cfg: &Cfg) -> PeerRole {
         Role::Ebgp => PeerRole::Ebgp,
         Role::Ibgp => PeerRole::Ibgp,
         Role::Confed => PeerRole::ConfedEbgp,
+        Role::RsClient => PeerRole::RsClient,
+        Role::RrClient => PeerRole::IbgpRrClient,
     }
 }
 
@@ -1943,18 +1984,18 @@ fn base_attrs(cfg: &Cfg) -> Vec<u8> {
     put_attr(&mut a, F_TRANS, ORIGIN, &[0]);
     let mut p = Vec::new();
     match cfg.role {
-        Role::Ebgp => {
+        Role::Ebgp | Role::RsClient => {
             p.extend_from_slice(&[2, 1]);
-            push_asn(&mut p, EBGP_PEER_AS, cfg.two_byte);
+            push_asn(&mut p, peer_as(cfg), cfg.two_byte);
         }
-        Role::Ibgp => {}
+        Role::Ibgp | Role::RrClient => {}
         Role::Confed => {
             p.extend_from_slice(&[3, 1]);
             push_asn(&mut p, CONFED_PEER_MEMBER, cfg.two_byte);
         }
     }
     put_attr(&mut a, F_TRANS, AS_PATH, &p);
-    if cfg.role != Role::Ebgp {
+    if !cfg.role.external() {
         put_attr(&mut a, F_TRANS, LOCAL_PREF, &100u32.to_be_bytes());
     }
     a
@@ -2110,8 +2151,11 @@ fn neighbour_params(cfg: &Cfg, remote_addr: IpAddr) -> PeerParams {
         expected_remote_asn: peer_as(cfg),
         local_asn: 0,
         passive: true,
-        rs_client: false,
-        route_reflector: RouteReflectorConfig::default(),
+        rs_client: cfg.role == Role::RsClient,
+        route_reflector: RouteReflectorConfig {
+            route_reflector_client: cfg.role == Role::RrClient,
+            ..RouteReflectorConfig::default()
+        },
         delete_on_disconnected: false,
         admin_down: false,
         state: SessionState::Idle,
@@ -2550,7 +2594,7 @@ impl DirectConn {
                 0
             },
         };
-        s.cluster_id = if cfg.role == Role::Ibgp {
+        s.cluster_id = if cfg.role.internal() {
             Some(LOCAL_RID)
         } else {
             None
@@ -2583,7 +2627,11 @@ impl DirectConn {
                 Ok(msg) => match msg {
                     Some(parsed) => {
                         (*s.counter_rx).sync_rx(&parsed);
-                        let is_ebgp = matches!(s.export_ctx.role, PeerRole::Ebgp);
+                        // run_select derives this flag from the session role; direct mode cannot
+                        // exercise that expression, so it passes what the statement means by
+                        // "external peer" (plain eBGP or route-server client) — the socket mode
+                        // judges what run_select itself passes
+                        let is_ebgp = self.cfg.is_ebgp();
                         match bgp::validate_message(parsed, is_ebgp) {
                             Err(notif) => {
                                 return Outcome::Reset(Some((
@@ -2732,6 +2780,9 @@ struct Keys {
     mp_w_ctl: bool,
     /// the harness's valid "withdraw everything" UPDATE emptied the Adj-RIB-In (control)
     cleanup_ok: bool,
+    /// Adj-RIB-In after the valid template (control)
+    valid_rib: Vec<Ent>,
+    valid_hex: Vec<String>,
 }
 
 #[derive(Clone, Debug)]
@@ -2937,7 +2988,7 @@ fn judge(
             for (f, c) in faults.iter().zip(rec.classes.iter()) {
                 match c {
                     Class::Discardable => {
-                        if f.code == LOCAL_PREF && t.cfg.role == Role::Ibgp {
+                        if f.code == LOCAL_PREF && t.cfg.role.internal() {
                             // rx_update gives an iBGP route without LOCAL_PREF the default 100: only a
                             // stored value that is the received one (and not 100) shows the faulty attribute was believed
                             let tv = val_of(t, LOCAL_PREF);
@@ -3109,25 +3160,11 @@ fn judge(
         }
     }
 
-    // ebgp-filter
-    if t.cfg.is_ebgp() {
-        let had = [LOCAL_PREF, ORIGINATOR_ID, CLUSTER_LIST]
-            .iter()
-            .any(|c| present(t, *c));
-        let mut stored = false;
-        for e in rib.iter().filter(|e| !e.pre) {
-            stored = true;
-            for c in [LOCAL_PREF, ORIGINATOR_ID, CLUSTER_LIST] {
-                if e.attrs.iter().any(|a| a.code() == c) {
-                    ev.findings.push(Finding { clause: "ebgp-filter".into(), code: Some(c), text: format!("attribute {} is stored with the path for {} learned from an external peer", c, e.key) });
-                }
-            }
-        }
-        if had && stored {
-            ev.notes
-                .push("clause:ebgp-filter:stored-with-ibgp-attrs-in-input".into());
-        }
-    }
+    // iBGP-only attributes: dropped when learned from an external peer (plain eBGP: clause
+    // ebgp-filter; route-server client: ibgp-only-attr-believed); other roles are counted
+    let (notes, findings) = ibgp_only_observe(t, faults, rib);
+    ev.notes.extend(notes);
+    ev.findings.extend(findings);
     let any_new = rib.iter().any(|e| !e.pre);
     ev.notes.push(
         if any_new && must_withdraw {
@@ -3140,6 +3177,66 @@ fn judge(
         .into(),
     );
     ev
+}
+
+/// What became of LOCAL_PREF / ORIGINATOR_ID / CLUSTER_LIST of the (valid or corrupted)
+/// UPDATE in the paths stored from it.  External non-confederation neighbour (plain eBGP,
+/// route-server client): a stored copy = the attribute was believed -> finding.  Internal
+/// neighbours (iBGP, RR client) and confederation members: the statement does not speak
+/// about them, the outcome is only counted (RFC 5065: LOCAL_PREF is legitimate inside a
+/// confederation; RFC 4456 / 7606 7.9-7.10 say "external neighbor" without placing
+/// confederation members on either side).
+fn ibgp_only_observe(t: &Tmpl, faults: &[Fault], rib: &[Ent]) -> (Vec<String>, Vec<Finding>) {
+    let mut notes = Vec::new();
+    let mut findings = Vec::new();
+    let role = t.cfg.role;
+    let stored: Vec<&Ent> = rib.iter().filter(|e| !e.pre).collect();
+    let had = [LOCAL_PREF, ORIGINATOR_ID, CLUSTER_LIST]
+        .iter()
+        .any(|c| present(t, *c));
+    if role == Role::Ebgp && had && !stored.is_empty() {
+        notes.push("clause:ebgp-filter:stored-with-ibgp-attrs-in-input".into());
+    }
+    for c in [LOCAL_PREF, ORIGINATOR_ID, CLUSTER_LIST] {
+        if role.external() {
+            for e in stored.iter() {
+                if e.attrs.iter().any(|a| a.code() == c) {
+                    findings.push(Finding {
+                        clause: if role == Role::Ebgp { "ebgp-filter".into() } else { "ibgp-only-attr-believed".into() },
+                        code: Some(c),
+                        text: format!(
+                            "attribute {} is stored with the path for {} learned from an external peer ({})",
+                            c,
+                            e.key,
+                            role.label()
+                        ),
+                    });
+                }
+            }
+        }
+        // per-role bookkeeping: the attribute was sent intact and a path of this UPDATE is stored
+        if !present(t, c) || faults.iter().any(|f| f.code == c) || stored.is_empty() {
+            continue;
+        }
+        let kept = stored.iter().all(|e| e.attrs.iter().any(|a| a.code() == c));
+        let gone = stored
+            .iter()
+            .all(|e| !e.attrs.iter().any(|a| a.code() == c));
+        notes.push(format!("ibgp-only:{}:{}:observed", role.label(), c));
+        notes.push(format!(
+            "ibgp-only:{}:{}:{}",
+            role.label(),
+            c,
+            if kept {
+                "stored"
+            } else if gone {
+                "dropped"
+            } else {
+                "mixed"
+            }
+        ));
+    }
+    (notes, findings)
 }
 
 // ---------------------------------------------------------------- workload
@@ -3286,7 +3383,7 @@ async fn control_once(
     if walk(&valid) != Walk::Ok {
         return Ok(Err("template does not walk".into()));
     }
-    let (o2, rib2, _) = run_batch(pool, st, t, vec![valid]).await?;
+    let (o2, rib2, hex2) = run_batch(pool, st, t, vec![valid]).await?;
     if o2 != Outcome::Alive {
         return Ok(Err(format!("valid template reset the session: {:?}", o2)));
     }
@@ -3321,6 +3418,8 @@ async fn control_once(
         )));
     }
     keys.cleanup_ok = rib3.is_empty();
+    keys.valid_rib = rib2;
+    keys.valid_hex = hex2;
     let _ = k;
     Ok(Ok(keys))
 }
@@ -3365,6 +3464,20 @@ async fn run_case(
         }
     }
     Ok(ev)
+}
+
+/// route-server client: `C05/e2e/ibgp-only-attr-believed/<attr>/<role>` (no fault list: the attribute
+/// is believed with or without other faults); plain eBGP keeps the packet-level vocabulary
+fn ibgp_only_signature(f: &Finding, t: &Tmpl, faults: &[Fault]) -> String {
+    if f.clause == "ibgp-only-attr-believed" {
+        format!(
+            "C05/e2e/ibgp-only-attr-believed/{}/{}",
+            f.code.unwrap_or(0),
+            t.cfg.role.label()
+        )
+    } else {
+        e2e_signature(&f.clause, f.code, faults)
+    }
 }
 
 fn e2e_signature(clause: &str, code: Option<u8>, faults: &[Fault]) -> String {
@@ -3474,7 +3587,49 @@ async fn template_round(
             .count(&format!("e2e:control:cleanup-ineffective:{:?}", t.mp_fam));
         restart(pool, cfg_key(&t.cfg)).await?;
     }
-    // the valid UPDATE is the case "no fault": its withdrawals are judged too
+    st.rep
+        .count(&format!("e2e:control:session:{:?}", t.cfg.role));
+    // the valid UPDATE is the case "no fault": iBGP-only attributes and withdrawals are judged too
+    {
+        let (notes, findings) = ibgp_only_observe(&t, &[], &keys.valid_rib);
+        for n in notes {
+            st.rep.count(&format!("e2e:{}", n));
+        }
+        let mut seen: BTreeSet<String> = BTreeSet::new();
+        for f in findings {
+            let sig = ibgp_only_signature(&f, &t, &[]);
+            if !seen.insert(sig.clone()) {
+                continue;
+            }
+            st.rep.count(&format!("e2e:finding:{}", f.clause));
+            let w = Json::obj(vec![
+                ("mode", Json::s(st.mode)),
+                ("session", Json::s(t.cfg.name())),
+                ("role", Json::s(t.cfg.role.label())),
+                ("faults", Json::s("none (valid UPDATE)")),
+                ("update_hex", Json::s(hex(&build(&t, &[]).bytes))),
+                (
+                    "batch_hex_in_order",
+                    Json::strs(keys.valid_hex.iter().cloned()),
+                ),
+                (
+                    "observed",
+                    Json::s(format!("Adj-RIB-In = {}", describe_rib(&keys.valid_rib))),
+                ),
+                (
+                    "expected",
+                    Json::s(
+                        "LOCAL_PREF / ORIGINATOR_ID / CLUSTER_LIST from an external peer are not stored with the path",
+                    ),
+                ),
+            ]);
+            st.rep.violation(
+                &sig,
+                &format!("{} [{} {}; faults: none]", f.text, st.mode, t.cfg.name()),
+                w,
+            );
+        }
+    }
     for (ok, set, what) in [
         (keys.legacy_w_ctl, &keys.legacy_w, "withdrawn route"),
         (keys.mp_w_ctl, &keys.mp_w, "MP_UNREACH route"),
@@ -3566,6 +3721,35 @@ async fn template_round(
         }
         let mut seen: BTreeSet<String> = BTreeSet::new();
         for f in ev.findings.clone() {
+            if f.clause == "ibgp-only-attr-believed" {
+                let sig = ibgp_only_signature(&f, &t, &faults);
+                if !seen.insert(sig.clone()) {
+                    continue;
+                }
+                st.rep.count(&format!("e2e:finding:{}", f.clause));
+                if st.rep.has_violation(&sig) {
+                    st.rep.violation(&sig, "", Json::Null);
+                    continue;
+                }
+                let what = format!(
+                    "{} [{} {}; faults: {}]",
+                    f.text,
+                    st.mode,
+                    t.cfg.name(),
+                    if faults.is_empty() {
+                        "none".to_string()
+                    } else {
+                        faults
+                            .iter()
+                            .map(|f| format!("attr {} {}", f.code, f.kind()))
+                            .collect::<Vec<_>>()
+                            .join(", ")
+                    }
+                );
+                let wj = case_json(st, &t, &faults, pre_a, &ev, &f.text);
+                st.rep.violation(&sig, &what, wj);
+                continue;
+            }
             if !seen.insert(f.clause.clone()) {
                 continue;
             }
@@ -3808,6 +3992,8 @@ fn run() {
             role: match params.get("role") {
                 Some("ebgp") => Role::Ebgp,
                 Some("confed") => Role::Confed,
+                Some("rs-client") => Role::RsClient,
+                Some("rr-client") => Role::RrClient,
                 _ => Role::Ibgp,
             },
             two_byte: params.flag("as2"),
